@@ -15,6 +15,7 @@ Definition c16_nets (cfg : Z) : list auth :=
              [dc key_volvo_d7e 0; dc key_laixer_vcu 18; dc key_laixer_hcu 74]]
      | 2 | 7 => [[dc key_laixer_hcu 74; dc key_kuebler_encoder 106; dc key_laixer_hcu 75]]   (* 7: interface dead at the signal *)
      | 3 => [[dc key_kuebler_inclinometer 122; dc key_j1939_ecu 32]]
+     | 9 => [[dc key_laixer_hcu 74]; [dc key_volvo_d7e 0]]     (* the engine network stalled for good *)
      | _ => [[dc key_laixer_hcu 74; dc key_laixer_vcu 18]]      (* 4: silent units with a timeout; 5: congested bus at start-up *)
      end).
 
